@@ -2,7 +2,15 @@
    Statements only; proofs are in Proofs/C12/*.v.
    IntegerHelper_signed_to_c2 / IntegerHelper_c2_to_signed / signExtend are REGENERATED from py4hw/helper.py on every
    run (Gen/Helpers.v); everything else is the hand-written model (Model/HelperInt.v, Model/FPNum.v, Model/FPHelper.v)
-   tied to the code by the correspondence sweep of py/props/c12.py. *)
+   tied to the code by the correspondence sweep of py/props/c12.py.
+   Every statement is about the model instance that the check ties to /repo TODAY (six C12 defects were repaired there:
+   8d56487, 8541cf4, 6fe767a, eab1ae9, b24d7f8, f0972ae).  py/props/c12.py probes the implementation for each repaired spot; if
+   one of them behaves as before its repair again, the theorems below no longer describe the code: the check reports the
+   broken tie and its differential produces the failing input.  What was true of the old code is kept only as
+   `Example ..._before_repair_<commit>` in the HISTORY section at the end.
+   `_partial` marks the statements about the float-typed helpers: they are proved for the model over dyadic rationals, and the
+   step from IEEE double arithmetic to that model is checked bit-exactly but not proved.  `_refuted` is kept only for what the
+   CURRENT code still does (FixedPoint.mult reads the top bit of an unsigned format as a sign). *)
 From V Require Import Base.Bits Gen.Helpers Spec.C12 Model.HelperInt Model.FPNum Model.FPHelper Proofs.C12.Int Proofs.C12.FPNum Proofs.C12.Decode Proofs.C12.Convert Proofs.C12.FPH Proofs.C12.OfFloat Proofs.C12.Encode.
 Open Scope Z_scope.
 
@@ -37,21 +45,25 @@ Proof. exact signExtend_char. Qed.
 Example C12_signExtend_ex : signExtend 0x1F5 8 16 = 0xFFF5.     (* bits above w are dropped first *)
 Proof. reflexivity. Qed.
 
-(* ---------------------------------------------------------------- FixedPoint on raw encodings, every format with iw >= 1 *)
-Theorem C12_fx_add : forall sw iw fw a b, 0 <= sw -> 1 <= iw -> 0 <= fw ->
+(* ---------------------------------------------------------------- FixedPoint on raw encodings: EVERY format (sw, iw, fw >= 0) *)
+(* formats without integer bits (iw = 0, pure fractions) included: FixedPoint(sw, 0, fw, 0) is constructible since 6fe767a *)
+Theorem C12_fx_add : forall sw iw fw a b, 0 <= sw -> 0 <= iw -> 0 <= fw ->
   FixedPoint_add sw iw fw a b = Some ((a + b) mod 2 ^ (sw + iw + fw)).
 Proof. exact fx_add_ok. Qed.
-Theorem C12_fx_sub : forall sw iw fw a b, 0 <= sw -> 1 <= iw -> 0 <= fw ->
+Theorem C12_fx_sub : forall sw iw fw a b, 0 <= sw -> 0 <= iw -> 0 <= fw ->
   FixedPoint_sub sw iw fw a b = Some ((a - b) mod 2 ^ (sw + iw + fw)).
 Proof. exact fx_sub_ok. Qed.
-(* product of the signed readings, fw low bits truncated (floor), modulo 2^w *)
-Theorem C12_fx_mult : forall sw iw fw a b, 0 <= sw -> 1 <= iw -> 0 <= fw ->
+(* product of the signed readings, fw low bits truncated (floor), modulo 2^w; the format needs at least one bit (mult sign-extends
+   from bit w-1: for w = 0 the code evaluates `v >> -1`) *)
+Theorem C12_fx_mult : forall sw iw fw a b, 0 <= sw -> 0 <= iw -> 0 <= fw -> 1 <= sw + iw + fw ->
   FixedPoint_mult sw iw fw a b =
   Some (((c2_decode (sw + iw + fw) a * c2_decode (sw + iw + fw) b) / 2 ^ fw) mod 2 ^ (sw + iw + fw)).
 Proof. exact fx_mult_ok. Qed.
-Example C12_fx_ex : FixedPoint_mult 1 3 4 (c2_encode 8 (-24)) 20 = Some (c2_encode 8 (-30)).   (* -1.5 * 1.25 = -1.875 *)
-Proof. reflexivity. Qed.
-Theorem C12_fx_of_int : forall sw iw fw v, 0 <= sw -> 1 <= iw -> 0 <= fw -> (0 <= v \/ sw <> 0) -> v <= 2 ^ (iw - 1) ->
+Example C12_fx_ex : FixedPoint_mult 1 3 4 (c2_encode 8 (-24)) 20 = Some (c2_encode 8 (-30)) /\         (* -1.5 * 1.25 = -1.875 *)
+                    FixedPoint_mult 1 0 3 12 6 = Some 13 /\ FixedPoint_add 0 0 4 9 9 = Some 2.           (* iw = 0: -0.5 * 0.75 = -0.375 *)
+Proof. vm_compute. repeat split. Qed.
+(* the constructor from an int, where it does not raise its documented range errors (v <= (1 << iw) >> 1) *)
+Theorem C12_fx_of_int : forall sw iw fw v, 0 <= sw -> 0 <= iw -> 0 <= fw -> (0 <= v \/ sw <> 0) -> v <= 2 ^ iw / 2 ->
   FixedPoint_intToFixedPoint sw iw fw v = Some ((v * 2 ^ fw) mod 2 ^ (sw + iw + fw)).
 Proof. exact intToFixedPoint_spec. Qed.
 (* toFloatingPoint returns numerator / 2^fw (one correctly rounded division, exact for w <= 53): the numerator is the signed reading *)
@@ -61,40 +73,15 @@ Proof. exact toFloat_num_signed. Qed.
 Theorem C12_fx_to_float_unsigned : forall iw fw v, 0 <= iw -> 0 <= fw -> 0 <= v < 2 ^ (iw + fw) ->
   FixedPoint_toFloat_num 0 iw fw v = v.
 Proof. exact toFloat_num_unsigned. Qed.
-(* guard iw >= 1 is needed: finding #23 *)
-Theorem C12_fx_no_integer_bits_refuted : forall sw fw a b,
-  FixedPoint_add sw 0 fw a b = None /\ FixedPoint_sub sw 0 fw a b = None /\ FixedPoint_mult sw 0 fw a b = None.
-Proof. exact fx_iw0_raises. Qed.
 (* the product is of the SIGNED readings even for an unsigned format (sw = 0): below the top bit it is the plain product ... *)
-Theorem C12_fx_mult_small : forall sw iw fw a b, 0 <= sw -> 1 <= iw -> 0 <= fw ->
+Theorem C12_fx_mult_small : forall sw iw fw a b, 0 <= sw -> 0 <= iw -> 0 <= fw -> 1 <= sw + iw + fw ->
   0 <= a < 2 ^ (sw + iw + fw - 1) -> 0 <= b < 2 ^ (sw + iw + fw - 1) ->
   FixedPoint_mult sw iw fw a b = Some (((a * b) / 2 ^ fw) mod 2 ^ (sw + iw + fw)).
 Proof. exact fx_mult_small. Qed.
-(* ... and with the top bit set it is not: FixedPoint(0,2,1, 2).mult(0.5) = 3.0 *)
+(* ... and with the top bit set it is not (CURRENT code): FixedPoint(0,2,1, 2).mult(0.5) = 3.0 *)
 Theorem C12_fx_mult_unsigned_refuted :
   FixedPoint_mult 0 2 1 4 1 = Some 6 /\ ((4 * 1) / 2 ^ 1) mod 2 ^ 3 = 2.
 Proof. exact fx_mult_unsigned_topbit. Qed.
-
-(* after the proposed repair of finding #23 (fixes/C12-23.diff: maxv = (1 << iw) >> 1) formats without integer bits work too;
-   the check selects this instance of the model when FixedPoint(1,0,1,0) no longer raises *)
-Theorem C12_fx_add_if_fixed : forall sw iw fw a b, 0 <= sw -> 0 <= iw -> 0 <= fw ->
-  FixedPoint_add_r sw iw fw a b = Some ((a + b) mod 2 ^ (sw + iw + fw)).
-Proof. exact fx_add_r_ok. Qed.
-Theorem C12_fx_sub_if_fixed : forall sw iw fw a b, 0 <= sw -> 0 <= iw -> 0 <= fw ->
-  FixedPoint_sub_r sw iw fw a b = Some ((a - b) mod 2 ^ (sw + iw + fw)).
-Proof. exact fx_sub_r_ok. Qed.
-Theorem C12_fx_mult_if_fixed : forall sw iw fw a b, 0 <= sw -> 0 <= iw -> 0 <= fw -> 1 <= sw + iw + fw ->
-  FixedPoint_mult_r sw iw fw a b =
-  Some (((c2_decode (sw + iw + fw) a * c2_decode (sw + iw + fw) b) / 2 ^ fw) mod 2 ^ (sw + iw + fw)).
-Proof. exact fx_mult_r_ok. Qed.
-Theorem C12_fx_of_int_if_fixed : forall sw iw fw v, 0 <= sw -> 0 <= iw -> 0 <= fw -> (0 <= v \/ sw <> 0) -> v <= 2 ^ iw / 2 ->
-  FixedPoint_intToFixedPoint_r sw iw fw v = Some ((v * 2 ^ fw) mod 2 ^ (sw + iw + fw)).
-Proof. exact intToFixedPoint_r_spec. Qed.
-Theorem C12_fx_repair_conservative : forall sw iw fw v, 1 <= iw ->        (* nothing changes for the formats that worked *)
-  FixedPoint_intToFixedPoint_r sw iw fw v = FixedPoint_intToFixedPoint sw iw fw v.
-Proof. exact intToFixedPoint_r_same. Qed.
-Example C12_fx_if_fixed_ex : FixedPoint_mult_r 1 0 3 12 6 = Some 13 /\ FixedPoint_add_r 0 0 4 9 9 = Some 2.    (* -0.5 * 0.75 = -0.375 *)
-Proof. vm_compute. split; reflexivity. Qed.
 
 (* ---------------------------------------------------------------- field pack / unpack: every format, every pattern *)
 (* std_layout ew mw = sign at bit ew+mw, exponent field of ew bits at bit mw, mw mantissa bits; the code's three
@@ -160,50 +147,27 @@ Example C12_fpnum_arith_ex :          (* 0xC49A6333 + 0x3F8CCCCD (Test_Helper) a
   xeqb (xval (FPNum_mul a b)) (XFin (-(10117939 * 9227469 # 68719476736))) = true.
 Proof. vm_compute. split; reflexivity. Qed.
 
-(* compare orders finite numbers like the rationals they denote, unless both are zero with different signs *)
+(* compare is the order of the extended rationals for ALL well-formed operands that are not NaN:
+   -0 = +0 (since b24d7f8), -inf < +inf (since f0972ae), infinity against finite, finite against finite *)
+Theorem C12_fpnum_compare_total : forall a b, wf a -> wf b -> f_nan a = false -> f_nan b = false ->
+  FPNum_compare a b = xcmpZ (xval a) (xval b).
+Proof. exact compare_total. Qed.
+(* finite operands: exactly Qcompare of the denoted rationals, no guard *)
 Theorem C12_fpnum_compare_exact : forall a b, wf a -> wf b ->
   f_inf a = false -> f_nan a = false -> f_inf b = false -> f_nan b = false ->
-  (f_s a = f_s b \/ 0 < f_m a \/ 0 < f_m b) ->
   FPNum_compare a b = cmpZ (Qcompare (fval a) (fval b)).
-Proof. exact compare_exact. Qed.
+Proof. exact compare_finite. Qed.
+Theorem C12_fpnum_compare_nan : forall a b, f_nan a || f_nan b = true -> FPNum_compare a b = 0.      (* unordered: the code answers 0 *)
+Proof. exact compare_nan. Qed.
 Example C12_fpnum_compare_ex :
-  FPNum_compare (FPNum_from_ieee754 fmt_dp 0x4005BF0A89F1B0DD) (FPNum_from_ieee754 fmt_dp 0x400921FB53C8D4F1) = -1.
-Proof. vm_compute. reflexivity. Qed.
-Theorem C12_fpnum_compare_signed_zero_refuted :      (* finding C12-CMP-ZERO: FPNum(-0.0).compare(FPNum(0.0)) = -1 *)
-  let a := mkfp (-1) (-1) 0 1 false false in let b := mkfp 1 (-1) 0 1 false false in
-  FPNum_compare a b = -1 /\ FPNum_compare b a = 1 /\ Qcompare (fval a) (fval b) = Eq.
-Proof. exact compare_signed_zero. Qed.
-Theorem C12_fpnum_compare_infinities_refuted :       (* finding C12-CMP-INF: compare(-inf, +inf) = 1 *)
-  let ninf := mkfp (-1) 0 0 0 true false in let pinf := mkfp 1 0 0 0 true false in
-  FPNum_compare ninf pinf = 1 /\ FPNum_compare pinf ninf = 1.
-Proof. exact compare_inf_inf. Qed.
-Theorem C12_fpnum_compare_inf_finite : forall a b, f_nan a = false -> f_nan b = false ->
-  (f_inf a = true -> f_inf b = false -> FPNum_compare a b = f_s a) /\
-  (f_inf a = false -> f_inf b = true -> FPNum_compare a b = - f_s b).
-Proof. exact compare_inf_fin. Qed.
+  FPNum_compare (FPNum_from_ieee754 fmt_dp 0x4005BF0A89F1B0DD) (FPNum_from_ieee754 fmt_dp 0x400921FB53C8D4F1) = -1 /\
+  FPNum_compare (mkfp (-1) (-1) 0 1 false false) (mkfp 1 (-1) 0 1 false false) = 0 /\            (* -0 vs +0 *)
+  FPNum_compare (mkfp (-1) 0 0 0 true false) (mkfp 1 0 0 0 true false) = -1.                       (* -inf vs +inf *)
+Proof. vm_compute. repeat split. Qed.
 
-(* compare in every version of the code (inf_fix / zero_fix = whether fixes/C12-CMP-INF.diff / C12-CMP-ZERO.diff are in; the check
-   reads both off the implementation): finite operands; with the zero repair the guard on signed zeros is not needed *)
-Theorem C12_fpnum_compare_finite_any_version : forall inf_fix zero_fix a b, wf a -> wf b ->
-  f_inf a = false -> f_nan a = false -> f_inf b = false -> f_nan b = false ->
-  (zero_fix = true \/ f_s a = f_s b \/ 0 < f_m a \/ 0 < f_m b) ->
-  FPNum_compare_with inf_fix zero_fix a b = cmpZ (Qcompare (fval a) (fval b)).
-Proof. exact compare_finite_with. Qed.
-(* with both repairs compare is the order of the extended rationals for ALL well-formed non-NaN operands (-0 = +0, -inf < +inf) *)
-Theorem C12_fpnum_compare_total_if_fixed : forall a b, wf a -> wf b -> f_nan a = false -> f_nan b = false ->
-  FPNum_compare_with true true a b = xcmpZ (xval a) (xval b).
-Proof. exact compare_total. Qed.
-Theorem C12_fpnum_compare_infinities_if_fixed : forall a b, sign_ok a -> sign_ok b -> f_nan a = false -> f_nan b = false ->
-  f_inf a = true -> f_inf b = true -> forall zero_fix, FPNum_compare_with true zero_fix a b = xcmpZ (xval a) (xval b).
-Proof. exact compare_inf_fixed. Qed.
-Example C12_fpnum_compare_if_fixed_ex :
-  FPNum_compare_with true true (mkfp (-1) (-1) 0 1 false false) (mkfp 1 (-1) 0 1 false false) = 0 /\
-  FPNum_compare_with true true (mkfp (-1) 0 0 0 true false) (mkfp 1 0 0 0 true false) = -1.
-Proof. vm_compute. split; reflexivity. Qed.
-
-(* reduceExponentPrecision after the repair of the undefined name (fixes/C12-REDUCE-EXP.diff): the value is kept, the exponent is
-   lifted to the subnormal scale of a prec-bit exponent field, infinity is flagged exactly when the biased exponent reaches all ones *)
-Theorem C12_fpnum_reduce_exponent_if_fixed : forall x prec, 1 <= prec -> 0 < f_p x ->
+(* reduceExponentPrecision (since eab1ae9): the value is kept, the exponent is lifted to the subnormal scale of a prec-bit exponent
+   field, infinity is flagged exactly when the biased exponent reaches all ones *)
+Theorem C12_fpnum_reduce_exponent : forall x prec, 1 <= prec -> 0 < f_p x ->
   let y := FPNum_reduceExponentPrecision x prec in
   let e_bias := (2 ^ prec - 1) / 2 in
   f_s y = f_s x /\ f_m y = f_m x /\ f_nan y = f_nan x /\ (fval y == fval x)%Q /\ - (e_bias - 1) <= f_e y /\
@@ -228,37 +192,30 @@ Theorem C12_fpnum_decode_any_format : forall ew mw sube nanm, 1 <= ew -> 0 <= mw
   let x := FPNum_from_ieee754 (fmt_std ew mw sube nanm) v in
   xeq (xval x) (ieee_value ew mw v) /\ (f_s x <? 0) = ieee_neg ew mw v /\ wf x.
 Proof. exact decode_exact. Qed.
-(* half precision: helper.py uses -16 for subnormals (finding #21), so only the other patterns are exact ... *)
-Theorem C12_fpnum_decode_hp_partial : forall v, fld_e 5 10 v <> 0 \/ fld_m 5 10 v = 0 ->
-  let x := FPNum_from_ieee754 fmt_hp v in
+(* half precision: all 2^16 patterns, subnormals included (exponent -14 since 8541cf4) *)
+Theorem C12_fpnum_decode_hp : forall v, let x := FPNum_from_ieee754 fmt_hp v in
   xeq (xval x) (ieee_value 5 10 v) /\ (f_s x <? 0) = ieee_neg 5 10 v /\ wf x.
-Proof. exact decode_hp_partial. Qed.
-(* ... every subnormal half pattern decodes to exactly a quarter of its value ... *)
-Theorem C12_fpnum_decode_hp_subnormal_refuted : forall v, fld_e 5 10 v = 0 ->
-  let x := FPNum_from_ieee754 fmt_hp v in
-  f_inf x = false /\ f_nan x = false /\
-  (fval x == (1 # 4) * (sgnq (fld_s 5 10 v =? 1) * ieee_mag 5 10 0 (fld_m 5 10 v)))%Q.
-Proof. exact decode_hp_subnormal_quarter. Qed.
-Example C12_fpnum_decode_hp_witness :
-  xeqb (xval (FPNum_from_ieee754 fmt_hp 1)) (XFin (1 # 67108864)) = true /\ xeqb (ieee_value 5 10 1) (XFin (1 # 16777216)) = true.
-Proof. exact decode_hp_witness. Qed.
-(* ... and with -14 in that place all 2^16 patterns are exact (the model instance the check selects once /repo is repaired) *)
-Theorem C12_fpnum_decode_hp_if_fixed : forall v, let x := FPNum_from_ieee754 (fmt_hp_with (-14)) v in
-  xeq (xval x) (ieee_value 5 10 v) /\ (f_s x <? 0) = ieee_neg 5 10 v /\ wf x.
-Proof. exact decode_hp_fixed. Qed.
+Proof. exact decode_hp. Qed.
+Example C12_fpnum_decode_hp_ex :        (* smallest and largest half subnormal *)
+  xeqb (xval (FPNum_from_ieee754 fmt_hp 1)) (XFin (1 # 16777216)) = true /\ xeqb (xval (FPNum_from_ieee754 fmt_hp 0x83FF)) (XFin (-(1023 # 16777216))) = true.
+Proof. vm_compute. split; reflexivity. Qed.
 
 (* ---------------------------------------------------------------- FPNum(v, fmt).convert(fmt) = v : every non-NaN pattern *)
-(* all 2^32 - 2^24 + 2 resp. 2^64 - 2^53 + 2 non-NaN patterns, by reasoning on the normal form (no enumeration) *)
+(* all 2^16 - 2^11 + 2, 2^32 - 2^24 + 2, 2^64 - 2^53 + 2 non-NaN patterns, by reasoning on the normal form (no enumeration) *)
+Theorem C12_fpnum_round_trip_hp : forall v, 0 <= v < 2 ^ 16 -> (fld_e 5 10 v = 31 -> fld_m 5 10 v = 0) ->
+  FPNum_convert fmt_hp (FPNum_from_ieee754 fmt_hp v) = v.
+Proof. exact round_trip_hp. Qed.
 Theorem C12_fpnum_round_trip_sp : forall v, 0 <= v < 2 ^ 32 -> (fld_e 8 23 v = 255 -> fld_m 8 23 v = 0) ->
   FPNum_convert fmt_sp (FPNum_from_ieee754 fmt_sp v) = v.
 Proof. exact round_trip_sp. Qed.
 Theorem C12_fpnum_round_trip_dp : forall v, 0 <= v < 2 ^ 64 -> (fld_e 11 52 v = 2047 -> fld_m 11 52 v = 0) ->
   FPNum_convert fmt_dp (FPNum_from_ieee754 fmt_dp v) = v.
 Proof. exact round_trip_dp. Qed.
-Example C12_fpnum_round_trip_ex :      (* smallest subnormal, largest finite, -0, +inf *)
+Example C12_fpnum_round_trip_ex :      (* smallest subnormal, largest finite, -0, +inf; half: smallest / largest subnormal *)
   map (fun v => FPNum_convert fmt_dp (FPNum_from_ieee754 fmt_dp v)) [1; 0x7FEFFFFFFFFFFFFF; 0x8000000000000000; 0x7FF0000000000000]
-  = [1; 0x7FEFFFFFFFFFFFFF; 0x8000000000000000; 0x7FF0000000000000].
-Proof. vm_compute. reflexivity. Qed.
+  = [1; 0x7FEFFFFFFFFFFFFF; 0x8000000000000000; 0x7FF0000000000000] /\
+  map (fun v => FPNum_convert fmt_hp (FPNum_from_ieee754 fmt_hp v)) [1; 0x03FF; 0x8001] = [1; 0x03FF; 0x8001].
+Proof. vm_compute. split; reflexivity. Qed.
 (* any standard format; NaN patterns come back as the format's quiet NaN *)
 Theorem C12_fpnum_round_trip_any_format : forall ew mw sube nanm, 2 <= ew -> 0 <= mw -> forall v,
   0 <= v < 2 ^ (1 + ew + mw) -> (fld_e ew mw v = 2 ^ ew - 1 -> fld_m ew mw v = 0) ->
@@ -269,18 +226,6 @@ Theorem C12_fpnum_round_trip_nan : forall ew mw sube nanm, 2 <= ew -> 0 <= mw ->
   fld_e ew mw v = 2 ^ ew - 1 -> fld_m ew mw v <> 0 ->
   FPNum_convert (fmt_std ew mw sube nanm) (FPNum_from_ieee754 (fmt_std ew mw sube nanm) v) = FPNum_pack (std_layout ew mw) 0 (2 ^ ew - 1) nanm.
 Proof. exact round_trip_nan. Qed.
-(* half precision today (finding #21): all patterns except the non-zero subnormals ... *)
-Theorem C12_fpnum_round_trip_hp_partial : forall v, 0 <= v < 2 ^ 16 -> (fld_e 5 10 v = 31 -> fld_m 5 10 v = 0) ->
-  (fld_e 5 10 v <> 0 \/ fld_m 5 10 v = 0) ->
-  FPNum_convert fmt_hp (FPNum_from_ieee754 fmt_hp v) = v.
-Proof. exact round_trip_hp_partial. Qed.
-Theorem C12_fpnum_round_trip_hp_refuted :
-  FPNum_convert fmt_hp (FPNum_from_ieee754 fmt_hp 1) = 0 /\ FPNum_convert fmt_hp (FPNum_from_ieee754 fmt_hp 1023) = 255.
-Proof. exact round_trip_hp_witness. Qed.
-Theorem C12_fpnum_round_trip_hp_if_fixed : forall v, 0 <= v < 2 ^ 16 -> (fld_e 5 10 v = 31 -> fld_m 5 10 v = 0) ->
-  FPNum_convert (fmt_hp_with (-14)) (FPNum_from_ieee754 (fmt_hp_with (-14)) v) = v.
-Proof. exact round_trip_hp_fixed. Qed.
-
 (* ---------------------------------------------------------------- FloatingPointHelper.ieee754_to_sp / ieee754_to_dp *)
 (* the float returned (model over dyadic rationals, float glue tied by correspondence only) is the IEEE value of the pattern *)
 Theorem C12_fph_decode_sp_partial : forall v, 0 <= v < 2 ^ 32 ->
@@ -293,11 +238,11 @@ Example C12_fph_decode_ex : FPH_from_ieee754 fph_sp 0x80000001 = PFin true 1 149
 Proof. vm_compute. split; reflexivity. Qed.
 
 (* sp/dp_to_ieee754(ieee754_to_sp/dp(v)) = v for every non-NaN pattern (same model over dyadic rationals; round() as
-   round-half-even of the exact value).  Single precision loses the sign of -0.0 (finding #16), hence v <> 2^31 *)
+   round-half-even of the exact value), -0.0 included (single precision keeps its sign since 8d56487) *)
 Theorem C12_fph_encode_decode_dp_partial : forall v, 0 <= v < 2 ^ 64 -> (fld_e 11 52 v = 2047 -> fld_m 11 52 v = 0) ->
   FPH_to_ieee754 fph_dp (FPH_from_ieee754 fph_dp v) = v.
 Proof. exact encode_decode_dp. Qed.
-Theorem C12_fph_encode_decode_sp_partial : forall v, 0 <= v < 2 ^ 32 -> (fld_e 8 23 v = 255 -> fld_m 8 23 v = 0) -> v <> 2 ^ 31 ->
+Theorem C12_fph_encode_decode_sp_partial : forall v, 0 <= v < 2 ^ 32 -> (fld_e 8 23 v = 255 -> fld_m 8 23 v = 0) ->
   FPH_to_ieee754 fph_sp (FPH_from_ieee754 fph_sp v) = v.
 Proof. exact encode_decode_sp. Qed.
 (* stronger: the encoder is exact on EVERY representable value, however the float is written as n / 2^d: if x denotes the value
@@ -308,20 +253,14 @@ Theorem C12_fph_encode_exact_dp_partial : forall x v, 0 <= v < 2 ^ 64 ->
 Proof. exact encode_exact_dp. Qed.
 Theorem C12_fph_encode_exact_sp_partial : forall x v, 0 <= v < 2 ^ 32 ->
   match x with PNaN => False | PInf _ => True | PFin _ n _ => 0 <= n end ->
-  xeq (pf_value x) (ieee_value 8 23 v) -> pf_neg x = ieee_neg 8 23 v -> v <> 2 ^ 31 -> FPH_to_ieee754 fph_sp x = v.
+  xeq (pf_value x) (ieee_value 8 23 v) -> pf_neg x = ieee_neg 8 23 v -> FPH_to_ieee754 fph_sp x = v.
 Proof. exact encode_exact_sp. Qed.
 Example C12_fph_encode_exact_ex :     (* 0.15625 = 5/32 written as 40/256 *)
   xeqb (pf_value (PFin false 40 8)) (ieee_value 8 23 0x3E200000) = true /\ FPH_to_ieee754 fph_sp (PFin false 40 8) = 0x3E200000.
 Proof. vm_compute. split; reflexivity. Qed.
-Theorem C12_fph_sp_neg_zero_refuted :
-  FPH_to_ieee754 fph_sp (PFin true 0 0) = 0 /\ FPH_to_ieee754 fph_dp (PFin true 0 0) = 2 ^ 63 /\ FPH_from_ieee754 fph_sp (2 ^ 31) = PFin true 0 0.
-Proof. exact encode_sp_neg_zero. Qed.
-Theorem C12_fph_encode_decode_sp_if_fixed_partial : forall v, 0 <= v < 2 ^ 32 -> (fld_e 8 23 v = 255 -> fld_m 8 23 v = 0) ->
-  FPH_to_ieee754 (fph_sp_with true) (FPH_from_ieee754 (fph_sp_with true) v) = v.
-Proof. exact encode_decode_sp_fixed. Qed.
 Example C12_fph_encode_ex :       (* ties round to even; overflow to infinity; below half the smallest subnormal to zero *)
-  map (FPH_to_ieee754 fph_sp) [PFin false 16777217 24; PFin false 16777219 24; PFin false 1 150; PFin false 3 151; PFin false (2 ^ 128) 0; PFin true 33554431 (-103)]
-  = [0x3F800000; 0x3F800002; 0; 1; 0x7F800000; 0xFF800000].
+  map (FPH_to_ieee754 fph_sp) [PFin false 16777217 24; PFin false 16777219 24; PFin false 1 150; PFin false 3 151; PFin false (2 ^ 128) 0; PFin true 33554431 (-103); PFin true 0 0]
+  = [0x3F800000; 0x3F800002; 0; 1; 0x7F800000; 0xFF800000; 0x80000000].
 Proof. vm_compute. reflexivity. Qed.
 
 (* ---------------------------------------------------------------- FPNum(float) *)
@@ -359,6 +298,45 @@ Theorem C12_spec_is_flocq_b64 : forall v, 0 <= v < 2 ^ 64 ->
   end.
 Proof. exact FlocqSpec.ieee_value_is_flocq_b64. Qed.
 
+(* ================================================================ HISTORY: what the code did before its repairs ================
+   Not property theorems: Examples about the explicitly old model instances (FPNum_compare_with, fmt_hp_before_8541cf4,
+   fph_sp_before_8d56487, FixedPoint_intToFixedPoint_before_6fe767a).  They document why the repairs were needed and are the
+   behaviours the check's probe looks for to notice a regression. *)
+Example C12_fx_no_integer_bits_before_repair_6fe767a : forall sw fw a b,       (* finding #23: every operation raised for iw = 0 *)
+  FixedPoint_add_gen FixedPoint_intToFixedPoint_before_6fe767a sw 0 fw a b = None /\
+  FixedPoint_sub_gen FixedPoint_intToFixedPoint_before_6fe767a sw 0 fw a b = None /\
+  FixedPoint_mult_gen FixedPoint_intToFixedPoint_before_6fe767a sw 0 fw a b = None.
+Proof. exact fx_iw0_raised_before. Qed.
+Example C12_fx_same_before_repair_6fe767a : forall sw iw fw v, 1 <= iw ->        (* the repair changed nothing for iw >= 1 *)
+  FixedPoint_intToFixedPoint sw iw fw v = FixedPoint_intToFixedPoint_before_6fe767a sw iw fw v.
+Proof. exact intToFixedPoint_same_as_before. Qed.
+Example C12_fpnum_compare_signed_zero_before_repair_b24d7f8 :                   (* finding C12-CMP-ZERO: -0 was ordered below +0 *)
+  let a := mkfp (-1) (-1) 0 1 false false in let b := mkfp 1 (-1) 0 1 false false in
+  FPNum_compare_with true false a b = -1 /\ FPNum_compare_with true false b a = 1 /\ Qcompare (fval a) (fval b) = Eq.
+Proof. exact compare_signed_zero_before. Qed.
+Example C12_fpnum_compare_infinities_before_repair_f0972ae :                    (* finding C12-CMP-INF: compare(-inf, +inf) was 1 *)
+  let ninf := mkfp (-1) 0 0 0 true false in let pinf := mkfp 1 0 0 0 true false in
+  FPNum_compare_with false false ninf pinf = 1 /\ FPNum_compare_with false false pinf ninf = 1.
+Proof. exact compare_inf_inf_before. Qed.
+Example C12_fpnum_compare_finite_before_repairs : forall inf_fix zero_fix a b, wf a -> wf b ->   (* every version agreed on finite operands, signed zeros apart *)
+  f_inf a = false -> f_nan a = false -> f_inf b = false -> f_nan b = false ->
+  (zero_fix = true \/ f_s a = f_s b \/ 0 < f_m a \/ 0 < f_m b) ->
+  FPNum_compare_with inf_fix zero_fix a b = cmpZ (Qcompare (fval a) (fval b)).
+Proof. exact compare_finite_with. Qed.
+Example C12_fpnum_decode_hp_subnormal_before_repair_8541cf4 : forall v, fld_e 5 10 v = 0 ->     (* finding #21: a quarter of the value *)
+  let x := FPNum_from_ieee754 fmt_hp_before_8541cf4 v in
+  f_inf x = false /\ f_nan x = false /\
+  (fval x == (1 # 4) * (sgnq (fld_s 5 10 v =? 1) * ieee_mag 5 10 0 (fld_m 5 10 v)))%Q.
+Proof. exact decode_hp_subnormal_quarter_before. Qed.
+Example C12_fpnum_round_trip_hp_before_repair_8541cf4 :                         (* finding #21: 0x0001 came back as 0, 0x03FF as 0x00FF *)
+  FPNum_convert fmt_hp_before_8541cf4 (FPNum_from_ieee754 fmt_hp_before_8541cf4 1) = 0 /\
+  FPNum_convert fmt_hp_before_8541cf4 (FPNum_from_ieee754 fmt_hp_before_8541cf4 1023) = 255.
+Proof. exact round_trip_hp_witness_before. Qed.
+Example C12_fph_sp_neg_zero_before_repair_8d56487 :                             (* finding #16: -0.0 encoded as 0x00000000 *)
+  FPH_to_ieee754 fph_sp_before_8d56487 (PFin true 0 0) = 0 /\ FPH_to_ieee754 fph_sp (PFin true 0 0) = 2 ^ 31 /\
+  FPH_from_ieee754 fph_sp (2 ^ 31) = PFin true 0 0.
+Proof. exact encode_sp_neg_zero_before. Qed.
+
 Print Assumptions C12_c2_round_trip.
 Print Assumptions C12_c2_converse.
 Print Assumptions C12_signed_to_c2_spec.
@@ -368,7 +346,8 @@ Print Assumptions C12_fx_add.
 Print Assumptions C12_fx_sub.
 Print Assumptions C12_fx_mult.
 Print Assumptions C12_fx_of_int.
-Print Assumptions C12_fx_no_integer_bits_refuted.
+Print Assumptions C12_fx_to_float_signed.
+Print Assumptions C12_fx_to_float_unsigned.
 Print Assumptions C12_fx_mult_small.
 Print Assumptions C12_fx_mult_unsigned_refuted.
 Print Assumptions C12_layouts.
@@ -382,42 +361,25 @@ Print Assumptions C12_fpnum_add_exact.
 Print Assumptions C12_fpnum_sub_exact.
 Print Assumptions C12_fpnum_mul_exact.
 Print Assumptions C12_fpnum_mul_special.
+Print Assumptions C12_fpnum_compare_total.
 Print Assumptions C12_fpnum_compare_exact.
-Print Assumptions C12_fpnum_compare_signed_zero_refuted.
-Print Assumptions C12_fpnum_compare_infinities_refuted.
-Print Assumptions C12_fpnum_compare_inf_finite.
+Print Assumptions C12_fpnum_compare_nan.
+Print Assumptions C12_fpnum_reduce_exponent.
 Print Assumptions C12_fpnum_decode_sp.
 Print Assumptions C12_fpnum_decode_dp.
 Print Assumptions C12_fpnum_decode_any_format.
-Print Assumptions C12_fpnum_decode_hp_partial.
-Print Assumptions C12_fpnum_decode_hp_subnormal_refuted.
-Print Assumptions C12_fpnum_decode_hp_if_fixed.
+Print Assumptions C12_fpnum_decode_hp.
+Print Assumptions C12_fpnum_round_trip_hp.
 Print Assumptions C12_fpnum_round_trip_sp.
 Print Assumptions C12_fpnum_round_trip_dp.
 Print Assumptions C12_fpnum_round_trip_any_format.
 Print Assumptions C12_fpnum_round_trip_nan.
-Print Assumptions C12_fpnum_round_trip_hp_partial.
-Print Assumptions C12_fpnum_round_trip_hp_refuted.
-Print Assumptions C12_fpnum_round_trip_hp_if_fixed.
 Print Assumptions C12_fph_decode_sp_partial.
 Print Assumptions C12_fph_decode_dp_partial.
-Print Assumptions C12_fpnum_of_float_partial.
 Print Assumptions C12_fph_encode_decode_dp_partial.
 Print Assumptions C12_fph_encode_decode_sp_partial.
-Print Assumptions C12_fph_sp_neg_zero_refuted.
-Print Assumptions C12_fph_encode_decode_sp_if_fixed_partial.
-Print Assumptions C12_spec_is_flocq_b32.
-Print Assumptions C12_spec_is_flocq_b64.
 Print Assumptions C12_fph_encode_exact_dp_partial.
 Print Assumptions C12_fph_encode_exact_sp_partial.
-Print Assumptions C12_fx_to_float_signed.
-Print Assumptions C12_fx_to_float_unsigned.
-Print Assumptions C12_fx_add_if_fixed.
-Print Assumptions C12_fx_sub_if_fixed.
-Print Assumptions C12_fx_mult_if_fixed.
-Print Assumptions C12_fx_of_int_if_fixed.
-Print Assumptions C12_fx_repair_conservative.
-Print Assumptions C12_fpnum_compare_finite_any_version.
-Print Assumptions C12_fpnum_compare_total_if_fixed.
-Print Assumptions C12_fpnum_compare_infinities_if_fixed.
-Print Assumptions C12_fpnum_reduce_exponent_if_fixed.
+Print Assumptions C12_fpnum_of_float_partial.
+Print Assumptions C12_spec_is_flocq_b32.
+Print Assumptions C12_spec_is_flocq_b64.
